@@ -41,6 +41,7 @@ const (
 	sigXRetryLeak      = "breaker/xprotocol-retry-stream-never-destroyed"
 	sigRetryTimeout    = "breaker/request-leak-global-timeout-during-retry-setup"
 	sigConnActNeg      = "gauge/upstream-connection-active-decremented-before-incremented"
+	sigOrphanStream    = "proxy/second-upstream-reset-in-upfilter-phase-orphans-downstream"
 )
 
 // ---------------------------------------------------------------- scenario data (JSON = canonical form)
@@ -113,6 +114,7 @@ type rig struct {
 	attempts sync.Map // token -> *int32
 	done     sync.Map // kind -> *int32 (upstream actions actually executed)
 
+	lsnLeakKnown int32 // orphaned downstream hit (listed finding): the listener request gauge is dropped from the expectation
 	reqLeakKnown int32 // xprotocol retry leak hit (listed finding): request counters are dropped from the expectation, no idle probes
 	connNegKnown int32 // transient negative upstream connection_active seen (listed finding): those gauges are no longer sampled for sign
 	h1Known      int32 // F10 hit (listed finding): no more idle probes in this case
@@ -589,7 +591,7 @@ func (r *rig) conserved(clientsClosed bool) expectFn {
 		if o.CluReqAct != 0 && !reqLeak {
 			return false, "gauge/cluster-request-active-not-zero", fmt.Sprintf("cluster upstream request_active=%d", o.CluReqAct)
 		}
-		if o.LsnReqAct != 0 {
+		if o.LsnReqAct != 0 && atomic.LoadInt32(&r.lsnLeakKnown) == 0 {
 			return false, "gauge/listener-request-active-not-zero", fmt.Sprintf("listener request_active=%d", o.LsnReqAct)
 		}
 		for i := range r.hosts {
@@ -685,6 +687,13 @@ func (r *rig) settle(phase string, want expectFn, desc func() string) bool {
 	}
 	r.checkNegatives(desc)
 	if !ok {
+		if r.isOrphanStream(sig, o) {
+			sig = sigOrphanStream
+			if ev.IsKnown(r.part, sig) { // listed finding: drop the listener request gauge, judge the rest of the case
+				atomic.StoreInt32(&r.lsnLeakKnown, 1)
+				return r.settle(phase, want, desc)
+			}
+		}
 		if rc := r.requestLeakCause(sig, o); rc != "" {
 			sig = rc
 			if ev.IsKnown(r.part, sig) { // listed finding: drop the request counters, judge the rest of the case
@@ -695,6 +704,24 @@ func (r *rig) settle(phase string, want expectFn, desc func() string) bool {
 		ev.Fail(r.t, r.part, sig, "%s: %s\nstate (unchanged for %v): %s\ncase: %s", phase, why, stuckWindow, o, desc())
 	}
 	return true
+}
+
+// isOrphanStream recognises the footprint of one listed root cause behind a listener request_active gauge
+// that stays above zero while every upstream-side counter is back at zero: an upstream reset (connection
+// closed / reset / failed) and a timeout timer hit the same request within the same moment; the second
+// event is handled while the first one's reply is in the UpFilter phase, where processError() returns
+// (End, ErrExit) and the proxy goroutine ends without sending the reply and without cleanStream().
+// Needs at least one timeout per leaked unit and some non-timeout reset in the case.
+func (r *rig) isOrphanStream(sig string, o obs) bool {
+	if sig != "gauge/listener-request-active-not-zero" || o.LsnReqAct <= 0 {
+		return false
+	}
+	if o.CluReqAct != 0 && atomic.LoadInt32(&r.reqLeakKnown) == 0 {
+		return false
+	}
+	st := r.info.Stats()
+	otherReset := r.did("reset")+r.did("close")+r.did("okclose") > 0 || st.UpstreamConnectionConFail.Count() > 0 || !allOK(r.su.Hosts)
+	return otherReset && st.UpstreamRequestTimeout.Count() >= o.LsnReqAct
 }
 
 // requestLeakCause recognises the footprints of two listed root causes behind a request counter that
